@@ -924,6 +924,11 @@ class Fxp():
 
         """
 
+        # an index that selects no element (empty slice, all-False mask, empty index list): nothing is written,
+        # so the value is not processed and no status flag is raised
+        if index is not None and isinstance(self.val, np.ndarray) and self.val.ndim > 0 and np.size(self.val[index]) == 0:
+            return self
+
         # convert input value to valid format
         val, original_vdtype, raw = self._format_inupt_val(val, raw=raw)
 
